@@ -509,3 +509,7 @@ mod test {
         }
     }
 }
+
+#[cfg(any(kani, aszepieniec_falcon_rust_verif))]
+#[path = "/verif/hooks/encoding.rs"]
+pub(crate) mod verif_hook;
